@@ -154,8 +154,8 @@ class GridKernel(Kernel):
                     covars = covars.squeeze(-2)  # Get rid of the dimension corresponding to the first point
                     # Un-pad the grid
                     covars = [ToeplitzLinearOperator(covars[..., i, : proj.size(-1)]) for i, proj in enumerate(grid)]
-                    # Due to legacy reasons, KroneckerProductLinearOperator(A, B, C) is actually (C Kron B Kron A)
-                    covar = KroneckerProductLinearOperator(*covars[::-1])
+                    # K_0 x K_1 x ...: the first data dimension is the slowest index (see create_data_from_grid)
+                    covar = KroneckerProductLinearOperator(*covars)
             else:
                 full_grid = torch.stack(padded_grid, dim=-1)
                 with warnings.catch_warnings():  # Hide the GPyTorch 2.0 deprecation warning
@@ -166,7 +166,7 @@ class GridKernel(Kernel):
                     covar = covars
                 else:
                     covars = [covars[..., i, : proj.size(-1), : proj.size(-1)] for i, proj in enumerate(self.grid)]
-                    covar = KroneckerProductLinearOperator(*covars[::-1])
+                    covar = KroneckerProductLinearOperator(*covars)
 
             if not self.training:
                 self._cached_kernel_mat = covar
